@@ -35,6 +35,9 @@ def make_isa(cfg):
     # a one-byte instruction with a 4-bit immediate (a field whose width is no multiple of 8); used by fault injection only
     opsets['nimm4'] = {'operand_values': {'v': {'type': 'numeric', 'argument': {'size': 4, 'byte_align': False}}}}
     instrs['ld4'] = {'bytecode': {'value': 0xB, 'size': 4}, 'operands': {'count': 1, 'operand_sets': {'list': ['nimm4']}}}
+    # a bit-number operand with explicit bounds 0..7 in a 3-bit code field (a bound that is 0 is a bound); fault injection only
+    opsets['bitno'] = {'operand_values': {'n': {'type': 'numeric_bytecode', 'bytecode': {'size': 3, 'min': 0, 'max': 7}}}}
+    instrs['bit3'] = {'bytecode': {'value': 0x15, 'size': 5}, 'operands': {'count': 1, 'operand_sets': {'list': ['bitno']}}}
     macros = {'ldn2': [{'operands': {'count': 1, 'operand_sets': {'list': ['nimm8']}},
                         'instructions': ['ldn @ARG(0)', 'ldn @ARG(0) + 1']}]}
     isa = {'description': 'layout', 'general': general, 'operand_sets': opsets, 'instructions': instrs, 'macros': macros}
